@@ -2570,7 +2570,12 @@ setattr_trait(
                     : value);
         }
 
-        if ((rc == 0) && do_notifiers) {
+        /* A trait that stores the original rather than the validated value
+           has changed only if the object stored differs from the old one. */
+        if ((rc == 0) && do_notifiers
+            && ((traitd->flags & TRAIT_COMPARISON_MODE_NONE)
+                || !(traitd->flags & TRAIT_SETATTR_ORIGINAL_VALUE)
+                || (old_value != new_value))) {
             rc = call_notifiers(
                 tnotifiers, onotifiers, obj, name, old_value, new_value);
         }
